@@ -4,6 +4,8 @@ Part A  synthetic item lists -> the real filter / sort / generateSummary functio
         "report_keys", "unified") vs the Coq model and spec (Report/ReportRun.v) vs a direct recomputation.
 Part B  generated projects x filter/threshold settings -> `pyscn analyze --json`; every summary number of the
         report recomputed from the items of the same report (c16report.check_report).
+Part B3 project-size lattice (c16report.make_size_project; synthetic responses in part A6): the derived ratio of the unified summary
+        (code_duplication_percentage) of every report against the Coq model (ReportRun.run_dup) on clone.statistics of the same report.
 Part B2 risk-lattice projects (c16report.make_lattice_project) x default / configured thresholds -> the CLI; every item's risk level
         against the classification of its own reported metric by the thresholds echoed in the same report (items ON, next to and two
         away from each threshold; CBO classes in every self-reference form), summaries' risk counts recounted from the metrics.
@@ -286,17 +288,96 @@ def impl_ctuple(r):
 # ------------------------------------------------------------------------------------------------
 # A6: unified summary
 # ------------------------------------------------------------------------------------------------
-def gen_ucase(rng):
+def dup_consts():
+    """(size unit in lines, minimum size in units, coefficient, cap) of the duplication formula, read from the generated
+    Gen/DomainConst.v: only the GENERATOR uses them (where the size boundaries are); every value is decided by the Coq model."""
+    import re
+    src = open(os.path.join(lib.COQ, "Gen", "DomainConst.v")).read()
+    out = []
+    for name, dflt in (("GroupDensityLinesUnit", 1000), ("GroupDensityMinLines", 1), ("GroupDensityCoefficient", 20), ("DuplicationThresholdHigh", 10)):
+        m = re.search(r"Definition domain_%s : Q := \(\((-?\d+)\) # (\d+)\)%%Q" % name, src)
+        out.append(Fraction(int(m.group(1)), int(m.group(2))) if m else Fraction(dflt))
+    return out
+
+
+def cap_lines(consts, g):
+    """The analysed line count at which g clone groups leave the cap: g / (lines/unit) * coefficient = cap."""
+    unit, mn, coef, cap = consts
+    return int(g * coef * unit / cap) if cap > 0 else 0
+
+
+def size_lattice(rng, consts, g, extra=1):
+    """Analysed line counts for a project with g clone groups: ON, next to and between every boundary of the formula -
+    the minimum size (unit * min), every multiple of the size unit up to two units beyond the point where g groups leave the
+    cap, that point itself, and non-multiples drawn from the seed strictly between consecutive boundaries (3493-like)."""
+    unit = int(consts[0])
+    lo = int(consts[0] * consts[1])
+    cl = cap_lines(consts, g)
+    edges = sorted(set([lo, cl] + [k * unit for k in range(1, cl // unit + 3)]))
+    vals = set([rng.randint(max(1, lo * 2 // 5), max(1, lo * 3 // 5))])
+    for e in edges:
+        vals.update([e - 1, e, e + 1])
+    for a, b in zip(edges, edges[1:]):
+        for _ in range(extra):
+            if b - a > 4:
+                vals.add(rng.randint(a + 2, b - 2))
+    return sorted(v for v in vals if v > 0)
+
+
+def size_band(consts, lines, g):
+    """Which branch of the formula a report with these statistics exercises."""
+    unit = int(consts[0])
+    lo = int(consts[0] * consts[1])
+    cl = cap_lines(consts, g)
+    if g <= 0 or lines <= 0:
+        return "no-groups-or-no-lines"
+    if lines < lo:
+        return "below-minimum-size"
+    if lines == lo:
+        return "at-minimum-size"
+    if lines < cl:
+        return "capped"
+    if lines == cl:
+        return "at-cap-boundary"
+    return "below-cap/multiple-of-unit" if lines % unit == 0 else "below-cap/not-a-multiple-of-unit"
+
+
+BANDS = ["below-minimum-size", "at-minimum-size", "capped", "at-cap-boundary", "below-cap/multiple-of-unit", "below-cap/not-a-multiple-of-unit"]
+
+
+def gen_ucase(rng, clone=None):
+    """clone: None = drawn at random, or {"lines", "groups"} = a cell of the size lattice (clone analysis selected)."""
     def vs():
         tot = rng.choice([0, 1, 7, 30])
         hi = rng.randint(0, tot // 3)
         return {"total": tot, "high": hi, "med": rng.randint(0, (tot - hi) // 2), "avg": rng.choice([0.0, 1.5, 3.25, round(rng.uniform(0, 30), 3)])}
     sel = {k: rng.random() < 0.7 for k in ("cx", "dead", "clone", "cbo", "lcom")}
     c, w, i = (rng.randint(0, rng.choice([0, 4, 20])) for _ in range(3))
+    cl = {"clones": rng.randint(0, 40), "pairs": rng.randint(0, 40), "groups": rng.choice([0, 1, 3, 10]),
+          "lines": rng.choice([0, 50, 999, 1000, 1001, 5000, 80000, rng.randint(1, 9999), rng.randint(10000, 250000)])}
+    if clone is not None:
+        sel["clone"] = True
+        cl.update(clone)
     return {"sel": sel, "cx": dict(vs(), files=rng.choice([1, 5, 12, 200]), nfuncs=rng.randint(0, 50)),
             "dc": {"files": rng.choice([1, 5, 12, 200]), "total": c + w + i, "c": c, "w": w, "i": i},
-            "clone": {"clones": rng.randint(0, 40), "pairs": rng.randint(0, 40), "groups": rng.choice([0, 1, 3, 10]),
-                      "lines": rng.choice([0, 50, 999, 1000, 1001, 5000, 80000])}, "cbo": vs(), "lcom": vs()}
+            "clone": cl, "cbo": vs(), "lcom": vs()}
+
+
+def gen_usize_cases(rng, consts, extra=1):
+    """The size lattice of the duplication ratio, systematically: for 1, 2, 3 groups every line count of size_lattice, each also
+    with the group counts just below / at / above the cap for that size, and large projects (tens of units) with few groups."""
+    out, seen = [], set()
+    unit = int(consts[0])
+    for g in (1, 2, 3):
+        for lines in size_lattice(rng, consts, g, extra) + [unit * rng.randint(12, 90) + rng.randint(1, unit - 1), unit * rng.randint(12, 90)]:
+            at_cap = int(lines * consts[3] / (consts[2] * consts[0]))      # the largest group count not above the cap
+            for gg in (g, at_cap - 1, at_cap, at_cap + 1):
+                if gg >= 0 and (lines, gg) not in seen:
+                    seen.add((lines, gg))
+                    out.append(gen_ucase(rng, {"lines": lines, "groups": gg}))
+    for lines in (0, 1):
+        out.append(gen_ucase(rng, {"lines": lines, "groups": rng.randint(0, 3)}))
+    return out
 
 
 def ucase_response(u):
@@ -335,7 +416,7 @@ def coq_ucase(u):
     x = "(Build_sections %s %s (ds_of %s %s %s %s %s) (cs_of %s %s %s) %s %s %s 0 0 0 0%%Q None)" % (
         vs(u["cx"], u["cx"]["files"]), cZ(u["cx"]["nfuncs"]), cZ(d["files"]), cZ(d["total"]), cZ(d["c"]), cZ(d["w"]), cZ(d["i"]),
         cZ(cl["clones"]), cZ(cl["pairs"]), cZ(cl["groups"]), cZ(cl["lines"]), vs(u["cbo"], 0), vs(u["lcom"], 0))
-    return "(run_unified %s %s)" % (sel, x)
+    return "(run_unified %s %s, run_dup %s %s %s)" % (sel, x, cbool(s["clone"]), cZ(cl["lines"]), cZ(cl["groups"]))
 
 
 UKEYS = ["total_files", "high_complexity_count", "dead_code_count", "critical_dead_code", "warning_dead_code", "info_dead_code", "cbo_classes",
@@ -388,7 +469,12 @@ def report(ck, what, replay, tags=None):
         ck.known_finding(e)
         return
     ck.nviol = getattr(ck, "nviol", 0) + 1
-    if ck.nviol <= 6:
+    # at most 3 per kind of input (synthetic unified response, CLI project, format rendering ...) and 12 in all, so that a
+    # defect visible both in-process and through the CLI is shown with a concrete report of each kind
+    kinds = ck.__dict__.setdefault("nviol_by_kind", {})
+    k = replay.get("kind") if isinstance(replay, dict) else None
+    kinds[k] = kinds.get(k, 0) + 1
+    if kinds[k] <= 3 and sum(min(v, 3) for v in kinds.values()) <= 12:
         ck.violation(what, replay)
 
 
@@ -546,8 +632,8 @@ def part_clones(ck, rng, n, stats):
     return len(cases)
 
 
-def part_unified(ck, rng, n, stats):
-    us = [gen_ucase(rng) for _ in range(n)]
+def part_unified(ck, rng, n, stats, consts, extra=1):
+    us = [gen_ucase(rng) for _ in range(n)] + gen_usize_cases(rng, consts, extra)
     impl = lib.driver([{"op": "unified", "response": ucase_response(u)} for u in us])
     model = coq_run(ck, "unified", [coq_ucase(u) for u in us])
     for i, u in enumerate(us):
@@ -561,7 +647,20 @@ def part_unified(ck, rng, n, stats):
             report(ck, "; ".join(bad[:3]), {"kind": "unified", "case": u, "impl": r})
             continue
         if model is not None:
-            ints, qs = model[i]
+            ints, qs, dup = model[i]
+            cl = u["clone"]
+            if u["sel"]["clone"]:
+                b = size_band(consts, cl["lines"], cl["groups"])
+                stats["unified_size_cells"][b] = stats["unified_size_cells"].get(b, 0) + 1
+            # the derived ratio: the value the model (ScoreQ.code_duplication_of) gives on the clone statistics of this response
+            if not close(qval(dup), r["code_duplication_percentage"]):
+                report(ck, "unified summary code_duplication_percentage = %r, but the clone statistics of the same response (lines_analyzed %d, "
+                           "total_clone_groups %d, clone analysis %s) give %s = %.10g [%s]"
+                       % (r["code_duplication_percentage"], cl["lines"], cl["groups"], "selected" if u["sel"]["clone"] else "not selected", qval(dup),
+                          float(qval(dup)), size_band(consts, cl["lines"], cl["groups"])),
+                       {"kind": "unified", "case": u, "impl": r, "recomputed_code_duplication_percentage": str(qval(dup))},
+                       {"section": "summary", "field": "code_duplication_percentage", "part": "unified"})
+                continue
             if [r[k] for k in UKEYS] != list(ints) or not all(close(qval(q), r[k]) for q, k in zip(qs, UQKEYS)):
                 stats["mismatch"] += 1
                 ck.broken_ties.append("calculateSummary differs from assemble/assemble_extra on %s: impl %s model %s %s" % (
@@ -752,6 +851,90 @@ def cli_format_flags(ck, d, flags, data, stats, where, replay):
             report(ck, "analyze %s ran the analyses before rejecting the flags (%s)" % (" ".join(combo), where), rp)
 
 
+def note_ratios(stats, P, where, replay):
+    """Queue the derived ratios of one report (c16report.check_report collected them) for decide_ratios."""
+    for q in P.ratios:
+        stats["pending_ratios"].append((q, where, replay))
+
+
+def decide_ratios(ck, stats, consts):
+    """summary.code_duplication_percentage of every report checked in this run against the model (ReportRun.run_dup =
+    ScoreQ.code_duplication_of, the function C16_unified_summary_is_projection states for it) evaluated on
+    clone.statistics.lines_analyzed / total_clone_groups of the SAME report; 0 when the report has no clone section."""
+    pend = stats.pop("pending_ratios")
+    if not pend:
+        return
+    model = coq_run(ck, "ratios", ["(run_dup %s %s %s)" % (cbool(q["has_clone"]), cZ(q["lines"]), cZ(q["groups"])) for q, _, _ in pend], shard=400)
+    if model is None:
+        return
+    for (q, where, replay), m in zip(pend, model):
+        stats["ratios_recomputed"] += 1
+        want = qval(m)
+        if q["has_clone"]:
+            b = size_band(consts, q["lines"], q["groups"])
+            key = "%s/groups=%s" % (b, q["groups"] if q["groups"] <= 3 else ">3")
+            stats["report_size_cells"][key] = stats["report_size_cells"].get(key, 0) + 1
+            if q.get("pairs", 0) != q["groups"] and q["groups"] > 0:
+                stats["ratio_reports_pairs_ne_groups"] += 1
+        got = q["reported"]
+        if not isinstance(got, (int, float)) or not close(want, got):
+            tags = {"section": "summary", "field": "code_duplication_percentage"}
+            report(ck, "summary.code_duplication_percentage = %r but clone.statistics of the same report (lines_analyzed %d, total_clone_groups %d%s) "
+                       "give %s = %.10g — %s" % (got, q["lines"], q["groups"], "" if q["has_clone"] else ", no clone section", want, float(want), where),
+                   dict(replay, tags=tags, clone_statistics={"lines_analyzed": q["lines"], "total_clone_groups": q["groups"]},
+                        reported_code_duplication_percentage=got, recomputed_code_duplication_percentage=str(want)), tags)
+
+
+def part_sizes(ck, rng, labels, thorough, stats, consts):
+    """Project-size lattice through the CLI: generated projects whose analysed line count sits ON / next to / between the
+    boundaries of the duplication formula (minimum size, every multiple of the size unit, the size at which 1, 2, 3 clone groups
+    leave the cap; non-multiples drawn from the seed) with 1..3 pairs of duplicated functions. Every report goes through
+    check_report (all numbers) and decide_ratios (the derived ratio against the model on the report's own statistics); the
+    formats and the terminal summary of reports whose ratio is below the cap are compared too."""
+    from concurrent.futures import ThreadPoolExecutor
+    jobs, fmt_done = [], 0
+    for g in (1, 2, 3):
+        sizes = size_lattice(rng, consts, g, 3 if thorough else 1)
+        if g > 1 and not thorough:
+            # the boundaries below the cap point of g groups were walked with one group already (all capped): keep one size below the
+            # minimum and everything from the cap point of g groups upwards
+            sizes = [v for v in sizes if v < int(consts[0] * consts[1]) - 1 or v >= cap_lines(consts, g) - 1]
+        for lines in sizes:
+            d = lib.fresh_dir("c16_size%d" % len(jobs))
+            try:
+                desc = R.make_size_project(d, rng, lines, g)
+            except ValueError:
+                continue        # the duplicated functions alone are longer than this size
+            # some reports with every analysis, most with the clone analysis only
+            jobs.append((d, desc, lines, g, [] if lines % 7 == 0 else ["--select", "clones"]))
+    with ThreadPoolExecutor(max_workers=6) as ex:       # the projects are independent directories: the CLI runs overlap
+        results = list(ex.map(lambda j: lib.analyze_json(j[0], j[4]), jobs))
+    for (d, desc, lines, g, flags), (rc, data, err) in zip(jobs, results):
+        stats["cli_runs"] += 1
+        where = "size project (%d lines intended, %d duplicated pairs, %s padding, %d file(s)) %s" % (lines, g, desc["padding"], len(desc["files"]), flags)
+        replay = {"kind": "e2e-size", "project": desc, "flags": flags, "generator": "c16report.make_size_project"}
+        if data is None:
+            report(ck, "no JSON report written for %s (exit %s): %s" % (where, rc, err[-300:]), replay)
+            continue
+        stats["reports"] += 1
+        P = R.check_report(data, labels)
+        stats["numbers_recomputed"] += P.checked
+        for tags, msg in P.items:
+            report(ck, "%s — %s" % (msg, where), dict(replay, tags=tags), tags)
+        note_ratios(stats, P, where, replay)
+        st = (data.get("clone") or {}).get("statistics") or {}
+        if st.get("lines_analyzed") != lines:
+            ck.broken_ties.append("size project: the report counts %s analysed lines, the generator intended %d" % (st.get("lines_analyzed"), lines))
+        bad = R.check_stderr_summary(err, data["summary"])
+        if bad:
+            report(ck, "terminal summary differs from the JSON report of the same run (%s): %s" % (where, "; ".join(bad[:3])), replay)
+        if size_band(consts, st.get("lines_analyzed", 0), st.get("total_clone_groups", 0)).startswith("below-cap") and fmt_done < (12 if thorough else 4):
+            fmt_done += 1
+            check_same_response(ck, data, where, stats, sections=False)
+        shutil.rmtree(d, ignore_errors=True)
+    return len(jobs)
+
+
 def part_e2e(ck, rng, labels, thorough, stats):
     plans = [("normal", True), ("normal", False), ("no_classes", False), ("clean", False), ("no_functions", False), ("only_classes", False),
              ("empty_file", False), ("with_broken_file", False), ("only_broken", False)]
@@ -780,6 +963,7 @@ def part_e2e(ck, rng, labels, thorough, stats):
             stats["reports"] += 1
             for tags, msg in P.items:
                 report(ck, "%s — %s" % (msg, where), dict(replay, tags=tags), tags)
+            note_ratios(stats, P, where, replay)
             for msg in broken_file_problems(desc, data) + order_problems(data):
                 report(ck, "%s — %s" % (msg, where), replay)
             s = data["summary"]
@@ -971,6 +1155,7 @@ def part_lattice(ck, rng, labels, thorough, stats):
             stats["numbers_recomputed"] += P.checked
             for tags, msg in P.items:
                 report(ck, "%s — %s" % (msg, where), dict(replay, tags=tags), tags)
+            note_ratios(stats, P, where, replay)
             # the thresholds the report echoes are the ones in effect, and the lattice around them was reached
             echo = {"complexity": ((data.get("complexity") or {}).get("Config") or {}, "low_threshold", "medium_threshold"),
                     "cbo": ((data.get("cbo") or {}).get("Config") or {}, "lowThreshold", "mediumThreshold"),
@@ -1002,7 +1187,9 @@ def main(tier):
     thorough = tier == "thorough"
     labels = R.parse_labels()
     stats = {"evals": 0, "mismatch": 0, "cli_runs": 0, "reports": 0, "numbers_recomputed": 0, "format_renders": 0, "no_report": 0, "runs_differing": 0,
-             "sections_nonempty": set(), "yaml_reader": "-", "lattice_items": {}}
+             "sections_nonempty": set(), "yaml_reader": "-", "lattice_items": {}, "pending_ratios": [], "ratios_recomputed": 0, "ratio_reports_pairs_ne_groups": 0,
+             "unified_size_cells": {}, "report_size_cells": {}}
+    consts = dup_consts()
     model_ok = not any(("Report/" in f or "Gen/" in f or "Score/" in f) for f in getattr(ck, "failed_files", []))
     if not all(labels.values()):
         ck.broken_ties.append("bucket labels not found in Gen/ReportConst.v")
@@ -1016,7 +1203,7 @@ def main(tier):
             dist["value_sections"] = part_values(ck, rng, labels, n, stats)
             dist["dead_code"] = part_deadcode(ck, rng, n, stats)
             dist["clones"] = part_clones(ck, rng, n, stats)
-            dist["unified"] = part_unified(ck, rng, n, stats)
+            dist["unified"] = part_unified(ck, rng, n, stats, consts, 3 if thorough else 1)
         except Exception as e:
             ck.broken_ties.append("synthetic correspondence failed: %s" % str(e)[-800:])
         try:
@@ -1028,6 +1215,16 @@ def main(tier):
             dist["many_items_project"] = part_many_items(ck, stats)
         except Exception as e:
             ck.broken_ties.append("risk lattice part failed: %s" % str(e)[-800:])
+        try:
+            dist["size_lattice_projects"] = part_sizes(ck, rng, labels, thorough, stats, consts)
+            decide_ratios(ck, stats, consts)
+            holes = [b for b in BANDS if not any(k.startswith(b + "/") for k in stats["report_size_cells"])]
+            holes += ["%s (synthetic)" % b for b in BANDS if b not in stats["unified_size_cells"]]
+            if holes:
+                ck.broken_ties.append("size lattice of the duplication ratio not reached: no report / response in %s" % "; ".join(holes))
+        except Exception as e:
+            ck.broken_ties.append("size lattice part failed: %s" % str(e)[-800:])
+    stats.pop("pending_ratios", None)
     stats["sections_nonempty"] = sorted(stats["sections_nonempty"])
     ck.cov.update({
         "evaluations": stats["evals"] + stats["cli_runs"] + stats["format_renders"],
@@ -1039,6 +1236,13 @@ def main(tier):
                 "risk-lattice projects through the CLI (default thresholds, a fixed configured set, configured sets drawn from the seed): complexity functions, "
                 "CBO classes and LCOM classes with the metric exactly ON each threshold in effect and 1, 2 above / below, the CBO classes in every self-reference form "
                 "(%s) with collaborators named by instantiation / parameter, attribute, return annotation / base class / imported name in rotating order; "
+                "project-SIZE lattice of the derived ratio of the unified summary (code_duplication_percentage = f(total_clone_groups, lines_analyzed)): "
+                "synthetic responses and generated CLI projects (1, 2, 3 families of duplicated functions in two or three copies + comment / blank / statement padding to an exact "
+                "analysed line count, one or two files) whose line count is ON, one below / above and strictly between (seed-drawn non-multiples) the minimum size, every multiple of "
+                "the size unit and the size at which that many groups leave the cap, up to two units beyond; synthetic cases also with the group count just below / at / above the "
+                "cap for the size and projects of tens of units; the ratio of EVERY report of the run (edge, risk-lattice and size projects, 0 without a clone section) decided against "
+                "the model ReportRun.run_dup = ScoreQ.code_duplication_of evaluated in Coq on clone.statistics of the same report; formula branches reached are measured (a hole is reported); "
+                "deps_modules_in_cycles / deps_main_sequence_deviation / arch_compliance of the unified summary = the system section's own numbers; "
                 "per item: risk level = classification of the item's own reported metric by the thresholds echoed in the same report; risk counts of the section and unified "
                 "summaries = recount of the items' metrics; echoed thresholds = thresholds in effect; lattice coverage measured from the report (a hole is reported); " % ", ".join(R.SELF_FORMS) +
                 "formats: the same response rendered by every formatter in-process (incl. variants with nil sections/lists/maps) and one CLI run per format",
@@ -1046,7 +1250,11 @@ def main(tier):
                                    numbers_recomputed_from_items=stats["numbers_recomputed"], format_renders=stats["format_renders"],
                                    runs_without_report=stats["no_report"], cli_run_pairs_with_different_results_skipped=stats["runs_differing"], sections_with_items=stats["sections_nonempty"],
                                    yaml_reader_for_cli_files=stats["yaml_reader"],
-                                   risk_lattice_items_on_or_next_to_an_echoed_threshold=stats["lattice_items"]),
+                                   risk_lattice_items_on_or_next_to_an_echoed_threshold=stats["lattice_items"],
+                                   derived_ratios_decided_against_the_model_per_report=stats["ratios_recomputed"],
+                                   reports_by_duplication_formula_branch_and_group_count=dict(sorted(stats["report_size_cells"].items())),
+                                   reports_with_clone_pairs_ne_groups=stats["ratio_reports_pairs_ne_groups"],
+                                   synthetic_unified_responses_by_duplication_formula_branch=dict(sorted(stats["unified_size_cells"].items()))),
         "model_mismatches": stats["mismatch"],
         "disagreements_checked": stats["mismatch"] + getattr(ck, "nviol", 0) + len(ck.known_hits),
         "level_note": "theorems cover the summary/filter/risk/projection logic (models tied by sampled correspondence); the format clauses "
@@ -1055,7 +1263,7 @@ def main(tier):
     })
     ck.trusted += ["Coq 8.16.1 kernel, vm_compute for model evaluation",
                    "translator /verif/translator/gen_report.go (bucket chains, risk and filter comparison operators, top-N lengths) and gen_check.go (severity levels)",
-                   "hand-written models Report/Summary.v, Report/Filters.v, Score/ScoreQ.v:assemble of the service generateSummary/filter functions and calculateSummary",
+                   "hand-written models Report/Summary.v, Report/Filters.v, Score/ScoreQ.v:assemble / code_duplication_of of the service generateSummary/filter functions and calculateSummary",
                    "float64 averages compared with the exact rational within 1e-9 relative",
                    "formats: regex extraction of headline numbers from CSV/text/HTML; YAML read by PyYAML when present, else by yaml.v3 itself; "
                    "JSON/YAML compared as data modulo key spelling (FilePath/file_path/filepath), nil-vs-empty, timestamps, durations and the io.Writer echo",
